@@ -135,6 +135,19 @@ def _compile(chunk, scalar, opts, skipped):
                 skipped.append({"item": rec[0], "why": f"numba backend failed: {type(e).__name__}: {str(e)[:300]}",
                                 "ffcx_error": True, "numba_error": type(e).__name__, "tb": traceback.format_exc()[-2500:]})
         return out
+    if any(rec[1].get("pre_list_options") is not None for rec in chunk):
+        # history: the caller's *list* of forms is first compiled under other options, then under the item's own
+        out = []
+        for rec in chunk:
+            try:
+                lst = [rec[2]["form"]]
+                if rec[1].get("pre_list_options") is not None:
+                    s5.Module(lst, scalar, rec[1]["pre_list_options"])
+                out.append((rec, (s5.Module(lst, scalar, opts), 0)))
+            except Exception as e:  # noqa: BLE001
+                skipped.append({"item": rec[0], "why": f"ffcx failed: {type(e).__name__}: {str(e)[:300]}",
+                                "ffcx_error": True, "tb": traceback.format_exc()[-2500:]})
+        return out
     if any(rec[1].get("twin_options") is not None for rec in chunk):
         # the same form compiled under a second option vector (option-independence law T[opts1] = T[opts2])
         out = []
